@@ -53,6 +53,9 @@ func c20Root() J {
 		"arrMapB":     J{"type": "object", "additionalProperties": ref("arrMapA")},
 		"aliasSelf":   ref("arrSelf"),
 		// recursion with an inline container level between the container and the reference back to it
+		"forestArr":   J{"type": "array", "items": ref("mapSelf")},
+		"groveMap":    J{"type": "object", "additionalProperties": ref("arrSelf")},
+		"aliasForest": ref("forestArr"),
 		"matrix":      J{"type": "array", "items": J{"type": "array", "items": ref("matrix")}},
 		"tree":        J{"type": "array", "items": J{"type": "object", "additionalProperties": ref("tree")}},
 		"forest":      J{"type": "object", "additionalProperties": J{"type": "array", "items": ref("forest")}},
